@@ -88,11 +88,11 @@ func buildFromDefinition(def *configDefinition, lc *loaderContext) (cfg *Config,
 			return nil, fmt.Errorf("task %s has empty definition", k)
 		}
 		cfg.Tasks[k], err = buildTask(v, lc)
-		if cfg.Tasks[k].Name == "" {
-			cfg.Tasks[k].Name = k
-		}
 		if err != nil {
 			return nil, err
+		}
+		if cfg.Tasks[k].Name == "" {
+			cfg.Tasks[k].Name = k
 		}
 	}
 
